@@ -350,7 +350,7 @@ func (e *Enc) callContract(site ssa.Instruction, key string, fc *FuncContract, c
 	var res Value
 	rnames := resultNames(sig)
 	if fc.Pure {
-		res = e.pureApp(key, args, rt, pre, true)
+		res = e.pureApp(key, args, rt, pre, !fc.ValuePure)
 		e.assume(rangeFact(res, rt), "result of "+key+" well typed")
 	} else {
 		res = e.freshValue("r$"+sanitize(short), rt)
